@@ -395,6 +395,12 @@ def main(run):
     yr = X @ np.array([1.0, -2.0, 0.5])
     models = [(DecisionTreeClassifier(max_depth=3, random_state=0), yc), (DecisionTreeRegressor(max_depth=3, random_state=0), yr),
               (LinearRegression(), yr), (LogisticRegression(), yc), (KNeighborsClassifier(3), yc)]
+    try:        # river's sklearn ADAPTERS: real sklearn estimators (fit / predict on arrays) that live in the river package
+        from river import compat as _compat, linear_model as _rlm
+        models.append((_compat.River2SKLRegressor(_rlm.LinearRegression()), yr))
+        models.append((_compat.River2SKLClassifier(_rlm.LogisticRegression()), (yc > 0).astype(int)))
+    except Exception as ex:
+        run.other_error(f"river-compat:{type(ex).__name__}")
     if thorough:
         for name, cls in all_estimators(type_filter=["classifier", "regressor"]):
             try:
@@ -418,10 +424,17 @@ def main(run):
                 try:
                     raw = getattr(est, meth)(X[:5])
                     raw1 = [getattr(est, meth)(X[i:i + 1]) for i in range(5)]   # the model's own one-row outputs
-                    batch = w(xs)
-                    singles = [w(xi) for xi in xs]
                 except Exception as ex:
                     run.other_error(f"real-model:{type(est).__name__}.{meth}:{type(ex).__name__}")
+                    continue
+                try:
+                    batch = w(xs)
+                    singles = [w(xi) for xi in xs]
+                except Exception as ex:       # the estimator itself predicts these rows: the wrapped call must, too
+                    run.ok(kind="real-model")
+                    run.violation("batch-input-raises", f"{type(est).__module__}.{type(est).__name__}.{meth} predicts the rows itself, but the function returned by "
+                                                        f"validate_model_function ({type(w).__name__}) raised {type(ex).__name__}: {ex}",
+                                  {"estimator": type(est).__name__, "method": meth})
                     continue
             run.ok(kind="real-model")
             exps = [canon_row(raw[i]) for i in range(5)]
